@@ -17,3 +17,23 @@ func VerifTwosComplement(p []byte) []byte { return twosComplement(p) }
 func VerifHandlePacket(c *Client, id int32, data []byte) error {
 	return c.handlePacket(pk.Packet{ID: id, Data: data})
 }
+
+// VerifAttachSendQueue gives the client a Conn that has only a send queue (no socket) and returns a function that
+// takes the next packet a manager queued with c.Conn.WritePacket (X04: screen.Manager.ContainerClick); it never blocks.
+func VerifAttachSendQueue(c *Client) func() (pk.Packet, bool) {
+	q := &verifSendQueue{}
+	c.Conn = &Conn{send: q}
+	return q.Pull
+}
+
+type verifSendQueue struct{ items []pk.Packet }
+
+func (q *verifSendQueue) Push(p pk.Packet) bool { q.items = append(q.items, p); return true }
+func (q *verifSendQueue) Pull() (p pk.Packet, ok bool) {
+	if len(q.items) == 0 {
+		return p, false
+	}
+	p, q.items = q.items[0], q.items[1:]
+	return p, true
+}
+func (q *verifSendQueue) Close() {}
